@@ -328,6 +328,34 @@ func genC03Loader(ctx *hx.Ctx, emit0 func(hx.Case)) {
 	} {
 		emit(c03LoaderCase(base(paths), nil, formats[i%2]))
 	}
+	// wrappers met again while their key is in progress (queued, `Value` filled by the deferred callback): a schema that
+	// refers to itself, two schemas that refer to each other, a self-reference through items / allOf / additionalProperties,
+	// a callback component whose operation uses the same callback component
+	sref := func(n string) map[string]any { return c03Ref("#/components/schemas/" + n) }
+	for i, schemas := range []map[string]any{
+		{"A": map[string]any{"type": "object", "properties": map[string]any{"self": sref("A"), "n": map[string]any{"type": "integer"}}}},
+		{"A": map[string]any{"type": "object", "properties": map[string]any{"b": sref("B")}},
+			"B": map[string]any{"type": "object", "properties": map[string]any{"a": sref("A")}}},
+		{"A": map[string]any{"type": "array", "items": sref("A")},
+			"M": map[string]any{"type": "object", "additionalProperties": sref("M")},
+			"N": map[string]any{"allOf": []any{sref("A"), map[string]any{"type": "object", "properties": map[string]any{"n": sref("N")}}}}},
+		{"A": map[string]any{"type": "object", "properties": map[string]any{"self": sref("B")}}, "B": sref("A2"),
+			"A2": map[string]any{"type": "object", "properties": map[string]any{"back": sref("B")}}},
+	} {
+		d := base(map[string]any{"/a": map[string]any{"get": map[string]any{"responses": map[string]any{"200": map[string]any{"description": "r",
+			"content": map[string]any{"application/json": map[string]any{"schema": sref("A")}}}}}}})
+		d["components"] = map[string]any{"schemas": schemas}
+		emit(c03LoaderCase(d, nil, formats[i%2]))
+	}
+	{
+		cbRef := c03Ref("#/components/callbacks/CB")
+		cbOp := map[string]any{"responses": map[string]any{"200": map[string]any{"description": "cb"}}, "callbacks": map[string]any{"again": cbRef}}
+		d := base(map[string]any{"/a": map[string]any{"post": map[string]any{"responses": map[string]any{"200": map[string]any{"description": "r"}},
+			"callbacks": map[string]any{"cb": cbRef}}}})
+		d["components"] = map[string]any{"callbacks": map[string]any{"CB": map[string]any{"{$request.body#/url}": map[string]any{"post": cbOp}}}}
+		emit(c03LoaderCase(d, nil, "json"))
+		emit(c03LoaderCase(d, nil, "yaml"))
+	}
 	use := map[string]bool{}
 	for _, k := range c03RefKinds {
 		use[k.coll] = true
